@@ -5,7 +5,7 @@
 import FlacModel.Model.StreamReader
 import FlacModel.Proofs.Local
 import FlacModel.Proofs.Sync
-import FlacModel.Props.C01b
+import FlacModel.Proofs.Codec
 
 namespace Flac.C16
 open Flac
@@ -275,7 +275,7 @@ theorem written_frame_standalone (p : Profile) (f : Frame) (xss out : List (List
     (hr : recorrelate p f.hdr.assign f.hdr.bps xss = .ok out) :
     Standalone p f.serialize { hdr := f.hdr, channels := out, used := f.serialize.length } :=
   { bytes := serialize_bytes_lt f
-    decodes := Flac.C01.frame_roundtrip p none f xss out w hx hr
+    decodes := Flac.decodeFrame_serialize p none f xss out w hx hr
     used := rfl }
 
 /-- **A clean concatenation reads back frame by frame, whatever changes between frames.**  Any sequence of
